@@ -66,7 +66,7 @@ FILTERS = {
     "liquid.builtin.filters.math": ["abs_", "at_most", "at_least", "ceil", "divided_by", "floor", "minus", "plus", "round_", "times", "modulo"],
     "liquid.builtin.filters.misc": ["size", "default"],
     "liquid.builtin.filters.extra": ["safe", "escapejs", "index"],
-    "liquid.builtin.filters.array": ["last"],
+    "liquid.builtin.filters.array": ["last", "first"],
 }
 
 
@@ -77,6 +77,7 @@ def _strip_tags(eng, st, args, kwargs):
 
 
 def _filter(m, name):
+    m = m.split("#")[0]
     mod = load.get_module(m)
     node = mod.funcs.get(name)
     if node is None:
@@ -127,6 +128,18 @@ def int_or_zero(c):
     json_like(c, a)
     self = c.obj("liquid.builtin.tags.tablerow_tag:TablerowNode", "tablerow")
     c.call(a, self_val=self)
+    c.raises("LiquidError")
+    c.replay("code", code=REPLAY)
+
+
+@contract("liquid.extra.tags.translate_tag:TranslateNode.resolve_count", prop="C02")
+def translate_count(c):
+    std_globals(c)
+    a = c.any("count")
+    json_like(c, a)
+    self = c.obj("liquid.extra.tags.translate_tag:TranslateNode", "translate", message_count_var=const("count"))
+    scope = c.st.alloc(HDict(items={"count": a}))
+    c.call(c.any("context"), scope, self_val=self)
     c.raises("LiquidError")
     c.replay("code", code=REPLAY)
 
